@@ -515,8 +515,9 @@ carquet_status_t carquet_delta_encode_int32(
 
     /* Encode remaining values */
     for (int32_t i = 1; i < num_values; i++) {
-        /* Use unsigned subtraction to avoid overflow UB, then reinterpret as signed */
-        int64_t delta = (int64_t)((uint64_t)(int64_t)values[i] - (uint64_t)enc.last_value);
+        /* INT32 deltas wrap around in 32 bits (the format limits INT32 miniblock
+         * widths to 32); computing them in 64 bits would need up to 33 */
+        int64_t delta = (int64_t)(int32_t)((uint32_t)values[i] - (uint32_t)(int32_t)enc.last_value);
         enc.deltas[enc.delta_count++] = delta;
         enc.last_value = values[i];
 
